@@ -1128,10 +1128,10 @@ func main() {
 		return
 	}
 
-	nRandom := r.N(20000, 400000)
-	nMutated := r.N(45000, 1000000)
-	nLimits := r.N(12000, 200000)
-	nMissing := r.N(4000, 60000)
+	nRandom := r.N(20000, 1600000)
+	nMutated := r.N(45000, 4000000)
+	nLimits := r.N(12000, 800000)
+	nMissing := r.N(4000, 240000)
 	fixed := fixedCorpus()
 	corpusSegs := []string{"one-piece", "byte-at-a-time", "random"}
 
